@@ -144,14 +144,14 @@ def gen_infinite(seed, idx):
 
 def directed(i):
     """the recorded known finding, exercised on every run: infinite TTLs, the watcher restarts, its unicast Subscribe
-    overtakes its own multicast FindService (jitter): the second reboot detection wipes the new subscription"""
-    ta = {"INITIAL_DELAY_MIN": 0.0, "INITIAL_DELAY_MAX": 0.1, "REPETITIONS_MAX": 1, "REPETITIONS_BASE_DELAY": 0.05, "CYCLIC_OFFER_DELAY": 0.5, "ANNOUNCE_TTL": 0xFFFFFF, "FIND_TTL": 3,
-          "SUBSCRIBE_TTL": 0xFFFFFF, "SUBSCRIBE_REFRESH_INTERVAL": None, "SEND_COLLECTION_TIMEOUT": 0.05, "REQUEST_RESPONSE_DELAY_MIN": 0.01, "REQUEST_RESPONSE_DELAY_MAX": 0.01}
-    tb = dict(ta, CYCLIC_OFFER_DELAY=2.0)
-    cfg = {"nodes": {"A": {"role": "offerer", "timings": ta}, "B": {"role": "watcher", "timings": tb}}, "net": {"latency": 0.02, "jitter": 0.01, "windows": [], "partitions": []},
-           "mc_loop": False, "sock_flip": 0, "infinite": True, "uniform": {"A": [0.0], "B": [1.0]}}
-    ops = [{"k": "node", "t": 5.37389, "n": "B", "f": "crash"}, {"k": "node", "t": 5.42389, "n": "B", "f": "restart"}]
-    plan = {"engine": "pair", "property": ID, "class": "directed-infinite", "seed": 6, "cfg": cfg, "ops": ops, "until": 11.0}
+    overtakes its own multicast FindService (jitter): the second reboot detection wipes the new subscription
+    (the plan the soundness sweep found with seed 6, index 2494, stored verbatim)"""
+    import json
+    import os
+
+    with open(os.path.join(os.path.dirname(__file__), "c04_directed0.json")) as f:
+        plan = json.load(f)
+    plan["class"] = "directed-infinite"
     return plan
 
 
